@@ -438,18 +438,27 @@ def ed25519(ctx, world, ev):
             for par in pars:
                 differs = differs or (mk_app("NotEq", (sign, par)), True) in conds or (mk_app("Eq", (sign, par)), False) in conds
                 same = same or (mk_app("NotEq", (sign, par)), False) in conds or (mk_app("Eq", (sign, par)), True) in conds
+        rc_ = gm.root_call(world, x0)
+        if not (differs or same) and rc_ is not None and gm.sqrt_helper_ok(world, ev, rc_[0], rc_[2])[0]:
+            # the root helper returns the even root (verified), so "parity(root) != bit 255" is "bit 255 is set"
+            for sign in sign_terms + [mk_app("BitAnd", (e, bit)) for e in (le, le32)]:
+                for tt in (sign, mk_app("NotEq", (sign, Const(0)))):
+                    differs = differs or (tt, True) in conds
+                    same = same or (tt, False) in conds
+                differs = differs or (mk_app("Eq", (sign, Const(0))), False) in conds
+                same = same or (mk_app("Eq", (sign, Const(0))), True) in conds
         ok = (flip and differs) or (not flip and same)
         nf += 1
         ctx.ob("K5-decoder", "Ed25519 decode path (%s)" % ("x = Q - root" if flip else "x = root"), ok,
                "x is negated exactly when parity(root) != bit 255 of the little-endian integer: inverse of the encoder's sign rule" if ok else
                "decoder's sign rule does not mirror the encoder (flip=%s; conditions %s)" % (flip, sorted(show(t, maxdepth=4) + "=" + str(p) for t, p in conds)[:4]), o.site)
         okr, whyr = False, "recovered x is not the result of a root helper applied to the decoded y: %s" % show(x0, maxdepth=3)
-        if isinstance(x0, App) and x0.f.startswith("fn:") and len(x0.args) == 1:
-            rf = gm.func_by_qual(world, x0.f[3:])
+        if rc_ is not None:
+            rf, yarg, comp_ = rc_
             ycoord = coords[0].items[1]
             ycoord = ycoord.args[0] if is_app(ycoord, "Mod") and ycoord.args[1] == Const(Q) else ycoord
-            if rf is not None and x0.args[0] == ycoord:
-                okr, whyr = gm.sqrt_helper_ok(world, ev, rf)
+            if yarg == ycoord:
+                okr, whyr = gm.sqrt_helper_ok(world, ev, rf, comp_)
         ctx.ob("K5-root", "Ed25519 decode path (%s)" % ("x = Q - root" if flip else "x = root"), okr,
                "x is recovered from y by the square-root algorithm: " + whyr if okr else
                "point decompression does not recover x correctly: " + whyr, o.site)
